@@ -4,7 +4,7 @@ search:         soundness on a value domain; completeness on the understood pair
 import itertools
 
 from common import call, enc, eval_codes, gen, main, rng_of
-from optcommon import atoms_defined
+from optcommon import atoms_defined, skey
 
 from predicate import predicate as PP
 from predicate.implies import implies
@@ -95,6 +95,30 @@ def search(payload):
                     break
         if len(fails) >= 5:
             break
+    # twins (predicates that print alike) asked one after the other in this one process, in both orders: the answer for the
+    # first must not be given for the second
+    tw = []
+    for ma, mb in gen.twin_makers():
+        for w in (InPredicate(v={2, 3}), InPredicate(v={"2", "3"}), PP.GePredicate(v=1), PP.GePredicate(v="1"), PP.NePredicate(v=3), PP.IsNotNonePredicate(),
+                  PP.LePredicate(v=5), PP.LePredicate(v="5")):
+            tw += [(ma(), w), (mb(), w), (w, ma()), (w, mb())]
+    values = VALUES + [v for v in gen.TWIN_VALUES if not any(type(v) is type(u) and v == u for u in VALUES)]
+    for p, q in tw + tw[::-1]:
+        try:
+            r = implies(p, q)
+        except Exception:  # noqa: BLE001
+            continue
+        if r:
+            for x in values:
+                if not (atoms_defined(p, x) and atoms_defined(q, x)):
+                    continue
+                n += 1
+                if call(p, x) == ("ok", True) and call(q, x) != ("ok", True):
+                    fails.append({"p": repr(p), "q": repr(q), "p_structure": skey(p), "q_structure": skey(q), "x": repr(x),
+                                  "kind": "unsound: implies() is True but x satisfies p and not q (asked after a predicate that prints alike)"})
+                    break
+        if len(fails) >= 5:
+            break
     # the three fixed patterns
     at = atoms()
     for a in at[:40]:
@@ -114,4 +138,5 @@ def replay(payload):
     return {"fails": True, "input": payload["replay"].get("input")}
 
 
-main({"correspondence": correspondence, "search": search, "replay": replay})
+if __name__ == "__main__":
+    main({"correspondence": correspondence, "search": search, "replay": replay})
